@@ -22,6 +22,7 @@ type C09 struct {
 	Chains []string
 	Stakes []int64
 	Seed   []engine.Op
+	Seeds  [][]engine.Op // further start states
 	Extra  bool // jailing before BeginBlocker, observed signer sets, long quiet periods
 }
 
@@ -35,7 +36,7 @@ func NewC09(n int) *C09 {
 
 func (c *C09) ID() string               { return "C09" }
 func (c *C09) Setup(in *hub.Instance)   { in.AnteSeq = true }
-func (c *C09) SeedPaths() [][]engine.Op { return [][]engine.Op{c.Seed} }
+func (c *C09) SeedPaths() [][]engine.Op { return append([][]engine.Op{c.Seed}, c.Seeds...) }
 func (c *C09) Genesis() hub.Genesis {
 	g := hub.Genesis{Hub: *mhubtypes.DefaultGenesisState(), Oracle: *oracletypes.DefaultGenesisState()}
 	for _, v := range c.Vals {
@@ -322,6 +323,9 @@ func c09Extra() *C09 {
 	c.Stakes = []int64{2, 1_000_000}
 	c.Seed = []engine.Op{engine.OpN("Reg", "ethereum", 0), engine.OpN("Reg", "ethereum", 1), engine.OpN("Reg", "ethereum", 2), engine.OpN("SetStake", 0, 0), engine.OpN("Next"),
 		engine.OpN("Observe", "ethereum"), engine.OpN("Next")}
+	// second start state: the stake has moved since and a newer set (not relayed yet) has been published: the latest
+	// published set and the last observed one differ
+	c.Seeds = [][]engine.Op{append(append([]engine.Op{}, c.Seed...), engine.OpN("SetStake", 0, 1), engine.OpN("Next"))}
 	return c
 }
 
